@@ -12,6 +12,8 @@ Fault enumeration on real runs:
  3. real SIGINT / SIGKILL to the main pid at seeded instants (black box);
  4. a live reader polling the output file during black-box runs: everything
     it reads must be the token sequence of a candidate the command accepted;
+ 6. promptness: between the adoption of an accepted candidate and the start
+    of the rewrite no further result is consumed (launcher markers);
  5. a sample of black-box runs under strace: the only system calls that name
     the output file are renames onto it and read-only opens.
 """
@@ -269,6 +271,59 @@ def signal_run(res, wd, case, r):
                 res.count('tmpdir_left_when_interrupted_during_shutdown')
 
 
+def prompt_write_run(res, wd, case):
+    """(6) the write follows the adoption at once: between the moment a
+    strategy adopts an accepted candidate and the start of the rewrite of the
+    output file no further result may be consumed (a deferred write leaves a
+    stale or missing file for as long as other checks are still running)."""
+    text, rules, opts, desc = case
+    run = realrun.run_ddsmt(wd, text, rules, opts=opts,
+                            launcher={'monitors': ['write', 'adopt']})
+    res.count('evaluations')
+    res.count('prompt_write_runs')
+    if run.timed_out or run.rc != 0:
+        res.count('prompt_write_runs_failed')
+        return
+    evs = sorted((e for e in run.events
+                  if e['ev'] in ('adopt', 'consume', 'write_start')
+                  and e['pid'] == run.events[0]['pid']),
+                 key=lambda e: e['t'])
+    pending = None
+    consumed = 0
+    for e in evs:
+        if e['ev'] == 'adopt':
+            if pending is not None and pending['ld'] != e['ld']:
+                w = dict(desc)
+                w['opts'] = opts
+                res.violation('adopted-input-never-written',
+                              'an adopted input was superseded before it '
+                              'was written to the output file', w)
+                break
+            pending = e
+            consumed = 0
+            res.count('adoptions_observed')
+        elif e['ev'] == 'consume' and pending is not None:
+            consumed += 1
+        elif e['ev'] == 'write_start' and pending is not None:
+            if e['ld'] != pending['ld'] or consumed > 0:
+                w = dict(desc)
+                w['opts'] = opts
+                w['results_consumed_before_write'] = consumed
+                res.violation(
+                    'write-deferred-after-adoption',
+                    f'{consumed} further result(s) were consumed between '
+                    f'the adoption of an accepted input and the rewrite of '
+                    f'the output file ({pending["strategy"]})', w)
+                break
+            pending = None
+    else:
+        if pending is not None:
+            w = dict(desc)
+            w['opts'] = opts
+            res.violation('adopted-input-never-written',
+                          'the last adopted input was never written', w)
+
+
 def strace_run(res, wd, case):
     """(5) system-call corroboration, independent of the Python-level hooks:
     the content of the output file may change only by a rename onto it."""
@@ -341,6 +396,10 @@ def shard(args):
             wd = os.path.join(base, f'sig{i}')
             signal_run(res, wd, case, r)
             shutil.rmtree(wd, ignore_errors=True)
+            if not case[3]['big']:
+                wd = os.path.join(base, f'pw{i}')
+                prompt_write_run(res, wd, case)
+                shutil.rmtree(wd, ignore_errors=True)
             if i % args.get('strace_every', 3) == 0 and not case[3]['big']:
                 wd = os.path.join(base, f'st{i}')
                 strace_run(res, wd, case)
@@ -377,8 +436,7 @@ def run(ctx):
         'an interrupt that arrives while the interpreter is already shutting '
         'down is not ddSMT\'s to handle (counted separately)'
     ]
-    if ctx.counters.get('runs_watchdog', 0):
-        ctx.inconclusive_because('a run hit the watchdog without evidence')
+    ctx.judge_watchdog('evaluations')
     if ctx.counters.get('failpoints_visited', 0) == 0:
         ctx.inconclusive_because('no failpoint was visited')
     if ctx.counters.get('reader_polls', 0) == 0:
